@@ -268,6 +268,24 @@ fn check_spearman(c: &SCase, obs: &mut Obs) -> CheckResult {
             }
         }
     }
+    // integer element types: Spearman depends on the order only, so shifting an i64 series beyond 2^53
+    // (where neighbouring values are equal as f64) must not change it
+    if c.x.iter().chain(c.y.iter()).flatten().all(|v| v.fract() == 0.0 && v.abs() < 1e6) {
+        let base: i64 = [1i64 << 53, 1 << 60, -(1 << 61)][c.x.len() % 3];
+        let xo: Vec<Option<i64>> = c.x.iter().map(|v| v.map(|v| v as i64)).collect();
+        let yo: Vec<Option<i64>> = c.y.iter().map(|v| v.map(|v| v as i64)).collect();
+        let xw: Vec<Option<i64>> = xo.iter().map(|v| v.map(|v| v + base)).collect();
+        let g0 = xo.vcorr(&yo, c.mp, CorrMethod::Spearman).unwrap_or(f64::NAN);
+        let g1 = xw.vcorr(&yo, c.mp, CorrMethod::Spearman).unwrap_or(f64::NAN);
+        let g2 = yo.vcorr(&xw, c.mp, CorrMethod::Spearman).unwrap_or(f64::NAN);
+        if (g0.to_bits() != g1.to_bits() && !(g0.is_nan() && g1.is_nan())) || (g0.to_bits() != g2.to_bits() && !(g0.is_nan() && g2.is_nan())) {
+            return fail("spearman:invariance:i64-shift", format!("Spearman of Option<i64> series changed from {} to {} / {} after adding {} to one of them", g0, g1, g2, base));
+        }
+        if g0.to_bits() != got.to_bits() && !(g0.is_nan() && got.is_nan()) {
+            return fail("spearman:element-type", format!("Spearman of the Option<i64> series is {}, of the same values as f64 {}", g0, got));
+        }
+        obs.class("i64_shifted_beyond_2^53");
+    }
     let n = c.x.iter().zip(c.y.iter()).filter(|(a, b)| a.is_some() && b.is_some()).count();
     let sx = sorted_valid(&c.x);
     obs.set_nontrivial(n >= 4 && !got.is_nan() && sx.windows(2).any(|w| w[0] == w[1]));
